@@ -52,6 +52,7 @@ type Ctx struct {
 	Assumptions []string
 	start    time.Time
 	variants []string
+	fixtures []fixtureResult
 }
 
 func (c *Ctx) count(k string, n int) { c.Analysed[k] += n }
@@ -362,6 +363,7 @@ func (c *Ctx) finish() int {
 			"per_rule":            rules,
 			"analysed":            c.Analysed,
 			"build_variants":      c.variants,
+			"seeded_fixtures":     c.fixtures,
 			"known_findings":      matchedKnown,
 			"undecided":           nund,
 			"notes":               c.Notes,
